@@ -64,12 +64,23 @@ ASSUMPTIONS = [
     'compiled by Lean 4 + Mathlib in the thorough tier only; the quick tier '
     'checks that it is stated without sorry',
     'single thread; std::sort / sort_gids permutes the appended segment',
+    'C ints are mathematical EXCEPT in task cellkey, where the key functions '
+    'of CellIndexingNNPS run on fixed-width integers with ISO C conversions '
+    '(pyvc/cint.py, LP64 widths, types read from the .pxd); there: log2 of an '
+    'exact integer is exact; the key must hold arrays of fewer than 2^31 '
+    'particles on at most 2047 cells per axis (the envelope of the fits '
+    'obligation, chosen here); a zero extent (1D/2D) makes _refresh convert '
+    '1 + log2(0) = -inf to an unsigned int, which ISO C leaves undefined '
+    '(0 on this platform, exercised by the bounded oracle) -- not examined',
+    'task cache: find_nearest_neighbors only appends to the buffer it is '
+    'given; threadid() is a value in [0, n_threads)',
+    'task octroot: update_min_max gives attained bounds; _get_eps >= 0',
 ]
 TRUSTED = ['z3 nonlinear arithmetic and quantifier instantiation']
 
 
 def tasks(tier):
-    t = ['arith', 'stencil', 'cellsize', 'bounds', 'ncells', 'sound', 'update', 'context', 'query', 'complete', 'list', 'repoint', 'zrows', 'sortseg', 'sortflag',
+    t = ['arith', 'stencil', 'cellsize', 'bounds', 'ncells', 'sound', 'update', 'cache', 'cellkey', 'octroot', 'context', 'query', 'complete', 'list', 'repoint', 'zrows', 'sortseg', 'sortflag',
             'lemma', 'oracle']
     return t + ['canary']
 
@@ -1077,6 +1088,688 @@ def task_update(ctx, repo):
                          'cache_update.range', W)
     ctx.prove('cache.update_invalidates_every_entry', z3only(obs),
               use_nf=False)
+
+
+CACHE_THREADS = r'''
+import json, sys
+d = json.load(sys.stdin)
+if d.get('built'): sys.path.insert(0, d['built'])
+import numpy as np
+from pysph.base.utils import get_particle_array
+from pysph.base import nnps
+from pysph.base.nnps_base import set_number_of_threads, get_number_of_threads
+from cyarray.api import UIntArray
+rng = np.random.RandomState(3)
+n = 3000
+bad = None
+threads_seen = 0
+for nt in (1, 8):
+    set_number_of_threads(nt)
+    threads_seen = max(threads_seen, get_number_of_threads())
+    for cls in ('LinkedListNNPS', 'SpatialHashNNPS'):
+        pa = get_particle_array(name='a', x=rng.rand(n), y=rng.rand(n), h=0.02)
+        nn = getattr(nnps, cls)(dim=2, particles=[pa], cache=True)
+        nn.set_context(0, 0)
+        nn.cache[0].find_all_neighbors()      # the OpenMP loop fills the cache
+        nb = UIntArray()
+        for i in range(n):
+            nn.get_nearest_particles(0, 0, i, nb)   # asked by the main thread
+            ids = set(nb.get_npy_array().tolist())
+            d2 = (pa.x - pa.x[i])**2 + (pa.y - pa.y[i])**2
+            want = set(np.where(d2 < (2.0*0.02)**2)[0].tolist())
+            if ids != want:
+                bad = dict(algorithm=cls, threads=nt, particle=i, problem='cached list filled by the OpenMP loop differs from the neighbour set when read by the main thread',
+                           missing=sorted(want - ids)[:6], extra=sorted(ids - want)[:6]); break
+        if bad: break
+    if bad: break
+print(json.dumps(dict(bad=bad, threads=threads_seen)))
+'''
+
+
+def replay_cache_threads(model, ob):
+    if os.environ.get('PYVC_NO_BUILD_REPLAY'):
+        return dict(reproduced=False, note='build replay disabled')
+    try:
+        tree, msg = native.shared_build()
+        if tree is None:
+            return dict(reproduced=False, note=msg)
+        r = native.run_venv(CACHE_THREADS, dict(built=tree), timeout=900,
+                            cwd='/tmp')
+    except Exception as e:
+        return dict(reproduced=False, note=str(e)[-300:])
+    if r['bad']:
+        return dict(reproduced=True, how='extensions built from the working '
+                    'tree with OpenMP; cache filled by find_all_neighbors '
+                    'under 1 and 8 threads, then read from the main thread',
+                    **r['bad'])
+    return dict(reproduced=False, note='threads available: %s' % r['threads'])
+
+
+# -------------------------------------------------------------------- cache
+class _NbrTable(object):
+    """self._neighbors: one growing UIntArray per thread; only the lengths
+    (a z3 array thread -> length) and the identity of cells matter here"""
+
+    def __init__(self, lens=None):
+        self.lens = lens if lens is not None else z3.Array(
+            'nbr_len', z3.IntSort(), z3.IntSort())
+
+    def vc_getitem(self, idx, ex, st, node):
+        return _NbrRef(self, idx)
+
+    def vc_clone(self, memo, _c=None):
+        if id(self) in memo:
+            return memo[id(self)]
+        c = _NbrTable(self.lens)
+        memo[id(self)] = c
+        return c
+
+
+class _NbrRef(object):
+    def __init__(self, table, idx):
+        self.table, self.idx = table, idx
+
+    def vc_getattr(self, a, ex, st, node):
+        if a == 'length':
+            return z3.Select(self.table.lens, S.to_z3(self.idx))
+        if a == 'data':
+            return _NbrData2(self.idx)
+        raise VCError('UIntArray.%s' % a)
+
+    def vc_clone(self, memo, _c=None):
+        return _NbrRef(self.table.vc_clone(memo), self.idx)
+
+
+class _NbrData2(object):
+    def __init__(self, idx):
+        self.idx = idx
+
+    def vc_getitem(self, i, ex, st, node):
+        return ('cell', self.idx, i)
+
+    def vc_clone(self, memo, _c=None):
+        return self
+
+
+def task_cache(ctx, repo):
+    """NeighborCache: the list of a cached particle lives in the buffer of
+    the thread that FOUND it.  _find_neighbors(d) run by thread t records
+    _pid_to_tid[d] = t and the segment [_start_stop[2d], _start_stop[2d+1])
+    of _neighbors[t] that find_nearest_neighbors appended, sets _cached[d]
+    and touches no other entry; get_neighbors_raw(d), run by ANY thread,
+    returns exactly the view (_neighbors[_pid_to_tid[d]], that segment) --
+    so a query gives the same list whichever thread asks, and whichever
+    thread filled the cache."""
+    m = repo.cython_module(NB)
+    W = m.path
+    cls = 'NeighborCache'
+    npart = z3.Int('np')
+    nthr = z3.Int('n_threads')
+    d = z3.Int('d_idx')
+    tnow = z3.Int('t_now')
+    pre = [npart >= 1, nthr >= 1, d >= 0, d < npart, tnow >= 0, tnow < nthr]
+
+    def mk():
+        cached = C17.carr('_cached', length=npart)
+        ss = C17.carr('_start_stop', length=2 * npart)
+        p2t = C17.carr('_pid_to_tid', length=npart)
+        tab = _NbrTable()
+        newlen = z3.Int('len_after_find')
+
+        def find(e, s_, a, k, nd):
+            ref = a[1]
+            if not isinstance(ref, _NbrRef):
+                raise VCError('find_nearest_neighbors buffer')
+            t = S.to_z3(ref.idx)
+            s_.trace.append(('find', a[0], ref.idx))
+            s_.pc.append(newlen >= z3.Select(ref.table.lens, t))
+            ref.table.lens = z3.Store(ref.table.lens, t, newlen)
+        nnps = SymObject(None, dict(find_nearest_neighbors=Native(find)),
+                         '_nnps')
+        obj = SymObject(cls, dict(
+            _n_threads=nthr, _dst_index=0, _start_stop=ss, _pid_to_tid=p2t,
+            _cached=cached, _neighbors=tab, _nnps=nnps), 'self')
+        obj.module = m
+        return obj, cached, ss, p2t, tab, newlen
+
+    def arr(o):
+        return o.attrs['data'].arr
+
+    def env_for(ex):
+        ex.spec_env['threadid'] = Native(lambda e, s_, a, k, nd: tnow)
+        ex.spec_env['addr_of'] = Native(lambda e, s_, a, k, nd: ('addr',
+                                                                 a[0]))
+    obs = []
+    k = z3.Int('k')
+    # ---- _find_neighbors
+    fn = m.methods(cls)['_find_neighbors']
+    obj, cached, ss, p2t, tab, newlen = mk()
+    c0, s0, p0, l0 = arr(cached), arr(ss), arr(p2t), tab.lens
+    ex = Executor(repo, m, qualname=cls + '._find_neighbors', merge=False)
+    env_for(ex)
+    outs = ex.exec_function(fn, dict(self=obj, d_idx=d), State(pc=list(pre)))
+    ctx.function(m, fn, cls + '._find_neighbors', ex.dropped)
+    obs += [o for o in ex.obligations if o.kind == 'index']
+    if not outs:
+        obs.append(Obligation('find.nopath', [], z3.BoolVal(False), W))
+    for i_, o in enumerate(outs):
+        me = o.state.env['self']
+        c1, s1, p1 = (arr(me.attrs[x]) for x in ('_cached', '_start_stop',
+                                                 '_pid_to_tid'))
+        l1 = me.attrs['_neighbors'].lens
+        tr = o.state.trace
+        okt = len(tr) == 1 and tr[0][0] == 'find'
+        g = [z3.BoolVal(okt)]
+        if okt:
+            g += [S.to_z3(tr[0][1]) == d, S.to_z3(tr[0][2]) == tnow]
+        g += [z3.Select(p1, d) == tnow,
+              z3.Select(s1, 2 * d) == z3.Select(l0, tnow),
+              z3.Select(s1, 2 * d + 1) == z3.Select(l1, tnow),
+              z3.Select(c1, d) == 1,
+              z3.ForAll([k], z3.Implies(k != d, z3.And(
+                  z3.Select(p1, k) == z3.Select(p0, k),
+                  z3.Select(c1, k) == z3.Select(c0, k)))),
+              z3.ForAll([k], z3.Implies(z3.And(k != 2 * d, k != 2 * d + 1),
+                                        z3.Select(s1, k) == z3.Select(s0, k))),
+              z3.ForAll([k], z3.Implies(k != tnow, z3.Select(l1, k) ==
+                                        z3.Select(l0, k)))]
+        for j, gg in enumerate(g):
+            obs.append(Obligation('find.post.%d.%d' % (i_, j), o.pc, gg, W))
+    # ---- get_neighbors_raw, caller checked against the contract above
+    fn = m.methods(cls)['get_neighbors_raw']
+    for was_cached in (True, False):
+        obj, cached, ss, p2t, tab, newlen = mk()
+        c0, s0, p0, l0 = arr(cached), arr(ss), arr(p2t), tab.lens
+        views = []
+        nbrs = SymObject(None, dict(c_set_view=Native(
+            lambda e, s_, a, k_, nd: views.append((a, list(s_.pc))))), 'nbrs')
+
+        def find_contract(e, s_, a, k_, nd):
+            me = a[0]
+            dd = S.to_z3(a[1])
+            s_.trace.append(('find_neighbors', a[1]))
+            sa = me.attrs['_start_stop'].attrs['data']
+            pa_ = me.attrs['_pid_to_tid'].attrs['data']
+            ca = me.attrs['_cached'].attrs['data']
+            t_ = me.attrs['_neighbors']
+            old = z3.Select(t_.lens, tnow)
+            s_.pc.append(newlen >= old)
+            sa.arr = z3.Store(z3.Store(sa.arr, 2 * dd, old), 2 * dd + 1,
+                              newlen)
+            pa_.arr = z3.Store(pa_.arr, dd, tnow)
+            ca.arr = z3.Store(ca.arr, dd, z3.IntVal(1))
+            t_.lens = z3.Store(t_.lens, tnow, newlen)
+        ex = Executor(repo, m, qualname=cls + '.get_neighbors_raw',
+                      merge=False, contracts={
+                          cls + '._find_neighbors':
+                          CalleeContract(find_contract)})
+        env_for(ex)
+        tag = 'cached' if was_cached else 'uncached'
+        p = list(pre) + [z3.Select(c0, d) == (1 if was_cached else 0)]
+        outs = ex.exec_function(fn, dict(self=obj, d_idx=d, nbrs=nbrs),
+                                State(pc=p))
+        if was_cached:
+            ctx.function(m, fn, cls + '.get_neighbors_raw', ex.dropped)
+        obs += [o for o in ex.obligations if o.kind == 'index']
+        live = [o for o in outs]
+        if not live or len(views) != len(live):
+            obs.append(Obligation('raw.%s.one_view_per_path' % tag, [],
+                                  z3.BoolVal(False), W))
+            continue
+        for i_, (o, (a, pc_)) in enumerate(zip(live, views)):
+            calls = [t for t in o.state.trace if t[0] == 'find_neighbors']
+            if was_cached:
+                owner, start, stop = (z3.Select(p0, d), z3.Select(s0, 2 * d),
+                                      z3.Select(s0, 2 * d + 1))
+                okc = calls == []
+            else:
+                owner, start, stop = tnow, z3.Select(l0, tnow), newlen
+                okc = len(calls) == 1
+            ptr = a[0]
+            shape = isinstance(ptr, tuple) and ptr[0] == 'addr' and \
+                isinstance(ptr[1], tuple) and ptr[1][0] == 'cell'
+            g = [z3.BoolVal(bool(shape and okc))]
+            if shape:
+                g += [S.to_z3(ptr[1][1]) == owner, S.to_z3(ptr[1][2]) == start,
+                      S.to_z3(a[1]) == stop - start]
+            if not was_cached and okc:
+                g.append(S.to_z3(calls[0][1]) == d)
+            for j, gg in enumerate(g):
+                obs.append(Obligation('raw.%s.%d.%d' % (tag, i_, j), pc_, gg,
+                                      W))
+    ctx.prove('cache.view_is_the_finding_threads_segment', z3only(obs),
+              use_nf=False, replay=replay_cache_threads)
+
+
+# ------------------------------------------------------------------ cellkey
+CI_PYX = 'pysph/base/cell_indexing_nnps.pyx'
+CI_PXD = 'pysph/base/cell_indexing_nnps.pxd'
+# the inputs the key must be able to hold: any array a UIntArray can index
+# (fewer than 2^31 particles) on a grid of at most 2047 cells per axis
+CI_MAX_NP_BITS = 31
+CI_MAX_AXIS_BITS = 11
+
+
+def task_cellkey(ctx, repo):
+    """CellIndexingNNPS packs (particle, cell x, y, z) into one machine
+    integer.  On the typed extraction, with C integer semantics (pyvc/cint.py;
+    widths from the .pxd):
+      roundtrip  for field widths I, J, K and fields n < 2^I, i < 2^J,
+                 j < 2^K, k < 2^(W-I-J-K) with I+J+K < W (W = width of the
+                 key type): _get_id/_get_x/_get_y/_get_z of _get_key(n,i,j,k)
+                 return n, i, j, k; no shift or signed overflow is undefined;
+      widths     _bin / _refresh choose I = 1+floor(log2 np), J, K =
+                 1+floor(log2 ncells) (log2 of an exact integer assumed
+                 exact), so every particle index and cell index is below
+                 2^width;
+      fits       for every array of fewer than 2^31 particles on a grid of at
+                 most 2047 cells per axis the four fields fit the key type:
+                 I + J + K + bits(z cells) <= W."""
+    from pyvc import cint
+    from pyvc.cint import CInt
+    m = repo.cython_module(CI_PYX)
+    px = repo.cython_module(CI_PXD)
+    W_ = m.path
+    cls = 'CellIndexingNNPS'
+    tdefs = dict(px.typedefs)
+    tdefs.update(m.typedefs)
+    attrs = px.cattrs.get(cls, {})
+    # signatures of cdef methods are declared in the .pxd
+    for q, rec in px.ctypes.items():
+        m.ctypes.setdefault(q, rec)
+    try:
+        kb, ks = cint.resolve(m.ctypes[cls + '._get_key']['ret'], tdefs)
+        ib, is_ = cint.resolve(attrs['I'].rstrip('*'), tdefs)
+        jb, js = cint.resolve(attrs['J'], tdefs)
+        kkb, kks = cint.resolve(attrs['K'], tdefs)
+    except (KeyError, VCError) as e:
+        ctx.outside('cellkey', 'declarations: %s' % e)
+        return
+    I = CInt.sym('I', ib, is_)
+    J = CInt.sym('J', jb, js)
+    K = CInt.sym('K', kkb, kks)
+    obj = SymObject(cls, dict(I=[I], J=J, K=K), 'self')
+    obj.module = m.typed
+    # the fields have the declared parameter types of _get_key and come
+    # back through the declared return types of the decoders
+    at = m.ctypes[cls + '._get_key']['args']
+    n, i, j, k = (CInt.sym(x, *cint.resolve(at[x], tdefs))
+                  for x in ('n', 'i', 'j', 'k'))
+    # preconditions, stated on bit-vectors of the key's width
+    Ib, Jb, Kb = (x.conv(kb, False).bv for x in (I, J, K))
+    one = z3.BitVecVal(1, kb)
+    tot = Ib + Jb + Kb
+    pre = [z3.UGE(Ib, 1), z3.UGE(Jb, 1), z3.UGE(Kb, 1),
+           z3.ULE(Ib, kb - 1), z3.ULE(Jb, kb - 1), z3.ULE(Kb, kb - 1),
+           z3.ULE(tot, kb - 1),
+           z3.ULT(n.conv(kb, False).bv, one << Ib),
+           z3.ULT(i.conv(kb, False).bv, one << Jb),
+           z3.ULT(j.conv(kb, False).bv, one << Kb),
+           z3.ULT(k.conv(kb, False).bv, one << (z3.BitVecVal(kb, kb) - tot))]
+    obs = []
+    try:
+        ex, res = cint.run(repo, m, cls, '_get_key', dict(
+            n=n, i=i, j=j, k=k, pa_index=0), obj, tdefs, pre=pre)
+        ctx.function(m, m.typed.methods(cls)['_get_key'], cls + '._get_key',
+                     ex.dropped)
+        obs += [o for o in ex.obligations if o.kind == 'ub']
+        if len(res) != 1:
+            raise VCError('_get_key: %d paths' % len(res))
+        pc0, key = res[0]
+        for fname, want in (('_get_id', n), ('_get_x', i), ('_get_y', j),
+                            ('_get_z', k)):
+            ex2, r2 = cint.run(repo, m, cls, fname, dict(key=key, pa_index=0),
+                               obj, tdefs, pre=pc0)
+            ctx.function(m, m.typed.methods(cls)[fname], cls + '.' + fname,
+                         ex2.dropped)
+            obs += [o for o in ex2.obligations if o.kind == 'ub']
+            for pc_, got in r2:
+                # the decoder's return type must be able to hold the field
+                fits_ret = z3.ULT(want.conv(kb, False).bv, z3.BitVecVal(
+                    2 ** (got.bits - (1 if got.signed else 0)), kb))
+                obs.append(Obligation(
+                    'roundtrip.%s' % fname, list(pc_) + [fits_ret],
+                    got.conv(kb, got.signed).bv ==
+                    want.conv(kb, False).bv, W_))
+    except VCError as e:
+        ctx.outside('cellkey.roundtrip', str(e))
+        return
+    ctx.prove('cellkey.decode_inverts_encode', z3only(obs, 120000),
+              use_nf=False, replay=replay_cellkey)
+    # vacuity guard: the preconditions admit a key that uses all four fields
+    ctx.canary('cellkey.precondition_reachable', Obligation(
+        'cover', list(pre) + [k.bv != 0, j.bv != 0, i.bv != 0, n.bv != 0],
+        z3.BoolVal(False), W_))
+
+    # ---- widths chosen by _refresh / _bin, and whether they fit the key
+    mt = m.typed
+    N = {a: z3.Int('ncells_' + a) for a in 'xyz'}
+    npart = z3.Int('np')
+    logs = []
+
+    def log2_model(e, s_, a, k_, nn):
+        # log2 of an exact positive integer: e with 2^e <= v < 2^(e+1); the
+        # value handed on is any real in [e, e+1) -- only its floor is used
+        v = a[0]
+        if isinstance(v, tuple) and v[0] == 'ceil':
+            v = v[1]
+        e_ = z3.Int('log2_%d' % len(logs))
+        L = z3.Real('log2r_%d' % len(logs))
+        logs.append((v, e_))
+        s_.pc.append(z3.Or(*[z3.And(e_ == t, v >= 2 ** t, v < 2 ** (t + 1))
+                             for t in range(0, 63)]))
+        s_.pc.append(z3.And(L >= z3.ToReal(e_), L < z3.ToReal(e_) + 1))
+        return L
+
+    def c_cast_real(e, s_, a, k_, nn):
+        v = a[1]
+        try:
+            bits, signed = cint.resolve(a[0], tdefs)
+        except VCError:
+            return v                    # cast to an extension type
+        if isinstance(v, (CInt, int)):
+            return CInt.of(v).conv(bits, signed)
+        # double -> integer: truncation toward zero of a non-negative value
+        fl = z3.ToInt(S.to_real(v))
+        s_.pc.append(fl >= 0)
+        return ('width', fl, bits)
+    cells = {}
+
+    def ceil_model(e, s_, a, k_, nn):
+        # ceil((max - min)/cell_size): the number of cells along the axis
+        ax = 'xyz'[len(cells) % 3]
+        cells[ax] = a[0]
+        return ('ceil', N[ax])
+    xs = SymObject(None, dict(data=[z3.Real('xmax0'), z3.Real('xmax1'),
+                                    z3.Real('xmax2')]), 'xmax')
+    xm = SymObject(None, dict(data=[z3.Real('xmin0'), z3.Real('xmin1'),
+                                    z3.Real('xmin2')]), 'xmin')
+    me = SymObject(cls, dict(xmax=xs, xmin=xm, cell_size=z3.Real('cell_size'),
+                             narrays=0, keys=[None], key_indices=[None],
+                             src_index=0, pa_wrappers=[], I=[None]), 'self')
+    me.module = mt
+    obs = []
+    try:
+        ex = Executor(repo, mt, qualname=cls + '._refresh', merge=False)
+        for nm_, f_ in (('log2', log2_model), ('ceil', ceil_model),
+                        ('c_cast', c_cast_real)):
+            ex.spec_env[nm_] = Native(f_)
+        outs = ex.exec_function(mt.methods(cls)['_refresh'], dict(self=me),
+                                State(pc=[N['x'] >= 1, N['y'] >= 1,
+                                          N['z'] >= 1, npart >= 1]))
+        ctx.function(m, mt.methods(cls)['_refresh'], cls + '._refresh',
+                     ex.dropped)
+        if len(outs) != 1:
+            raise VCError('_refresh: %d paths' % len(outs))
+        st1 = outs[0].state
+        Jw, Kw = st1.env['self'].attrs['J'], st1.env['self'].attrs['K']
+        # _bin: I[pa_index]
+        pw = SymObject(None, dict(get_number_of_particles=Native(
+            lambda e, s_, a, k_, nn: npart)), 'pa_wrapper')
+        me2 = SymObject(cls, dict(pa_wrappers=[pw], I=[None], keys=[None],
+                                  key_indices=[None],
+                                  fill_array=Native(lambda *a_: None)),
+                        'self')
+        me2.module = mt
+        ex2 = Executor(repo, mt, qualname=cls + '._bin', merge=False)
+        for nm_, f_ in (('log2', log2_model), ('c_cast', c_cast_real)):
+            ex2.spec_env[nm_] = Native(f_)
+        outs2 = ex2.exec_function(mt.methods(cls)['_bin'], dict(
+            self=me2, pa_index=0, indices=('indices',)),
+            State(pc=list(st1.pc)))
+        ctx.function(m, mt.methods(cls)['_bin'], cls + '._bin', ex2.dropped)
+        if len(outs2) != 1:
+            raise VCError('_bin: %d paths' % len(outs2))
+        st2 = outs2[0].state
+        Iw = st2.env['self'].attrs['I'][0]
+        for nm, w_ in (('I', Iw), ('J', Jw), ('K', Kw)):
+            if not (isinstance(w_, tuple) and w_[0] == 'width'):
+                raise VCError('%s is not a truncated log2: %r' % (nm, w_))
+        pc = list(st2.pc)
+
+        def pow_gt(width, v):
+            return z3.Or(*[z3.And(width == t, v < 2 ** t)
+                           for t in range(0, 64)])
+        # every particle index (< np) and every cell index (<= ncells, a
+        # particle on the upper face) is below 2^width
+        obs.append(Obligation('widths.I_holds_every_particle_index', pc,
+                              pow_gt(Iw[1], npart - 1), W_))
+        obs.append(Obligation('widths.J_holds_every_x_cell', pc,
+                              pow_gt(Jw[1], N['x']), W_))
+        obs.append(Obligation('widths.K_holds_every_y_cell', pc,
+                              pow_gt(Kw[1], N['y']), W_))
+        # the x extent feeds J and the y extent K
+        okax = (len(cells) >= 2 and 'xmax0' in str(cells.get('x')) and
+                'xmax1' in str(cells.get('y')))
+        obs.append(Obligation('widths.axes', [], z3.BoolVal(bool(okax)), W_))
+        ctx.prove('cellkey.field_widths_hold_every_index', z3only(obs),
+                  use_nf=False, replay=replay_cellkey)
+        # fits: the envelope
+        zb = z3.Int('zbits')
+        env = [npart < 2 ** CI_MAX_NP_BITS] + \
+            [N[a] < 2 ** CI_MAX_AXIS_BITS for a in 'xyz'] + \
+            [z3.Or(*[z3.And(zb == t, N['z'] < 2 ** t,
+                            N['z'] >= (2 ** (t - 1) if t else 0))
+                     for t in range(0, 63)])]
+        fit = Obligation('fits.key_type_holds_all_four_fields', pc + env,
+                         Iw[1] + Jw[1] + Kw[1] + zb <= kb, W_)
+        ctx.prove('cellkey.key_fits_its_type', z3only([fit]), use_nf=False,
+                  replay=replay_cellkey)
+    except VCError as e:
+        ctx.outside('cellkey.widths', str(e))
+        return
+
+
+CELLKEY = r"""
+import json, sys
+d = json.load(sys.stdin)
+if d.get('built'): sys.path.insert(0, d['built'])
+import numpy as np
+from pysph.base.utils import get_particle_array
+from pysph.base import nnps
+from cyarray.api import UIntArray
+bad = None
+rng = np.random.RandomState(0)
+# (a) aspect ratios (the y field is decoded with its own width), (b) a 2D
+# lattice of 65536 particles on 253 x 253 cells (the four fields need 33 bits)
+cases = [('tall 2D', 2, 400, (1.0, 6.0, 0.0), 0.1), ('tall 3D', 3, 500, (1.0, 5.0, 2.0), 0.15), ('wide 3D', 3, 500, (6.0, 1.0, 2.0), 0.15)]
+for name, dim, n_, box, h in cases:
+    x = rng.rand(n_) * box[0]; y = rng.rand(n_) * box[1]; z = rng.rand(n_) * box[2]
+    pa = get_particle_array(name='a', x=x, y=y, z=z, h=h)
+    ci = nnps.CellIndexingNNPS(dim=dim, particles=[pa], radius_scale=2.0)
+    nb = UIntArray()
+    for q in range(n_):
+        ci.get_nearest_particles(0, 0, q, nb)
+        d2 = (x - x[q])**2 + (y - y[q])**2 + (z - z[q])**2
+        want = sorted(np.where(d2 < (2.0 * h)**2)[0].tolist())
+        got = sorted(nb.get_npy_array().tolist())
+        if got != want:
+            bad = dict(case=name, particle=q, returned=got[:8], expected=want[:8]); break
+    if bad: break
+if bad is None:
+    N = 256
+    gx, gy = np.mgrid[0:N, 0:N] * 1.0
+    pa = get_particle_array(name='a', x=gx.ravel(), y=gy.ravel(), h=0.505)
+    ci = nnps.CellIndexingNNPS(dim=2, particles=[pa], radius_scale=2.0)
+    nb = UIntArray()
+    for q in rng.randint(0, N * N, 200).tolist():
+        ci.get_nearest_particles(0, 0, q, nb)
+        qi, qj = divmod(q, N)
+        want = sorted(a_ * N + b_ for a_, b_ in ((qi, qj), (qi - 1, qj), (qi + 1, qj), (qi, qj - 1), (qi, qj + 1)) if 0 <= a_ < N and 0 <= b_ < N)
+        got = sorted(nb.get_npy_array().tolist())
+        if got != want:
+            bad = dict(case='2D lattice 256 x 256 = 65536 particles, 253 x 253 cells', particle=q, returned=got, expected=want); break
+print(json.dumps(dict(bad=bad)))
+"""
+
+
+def replay_cellkey(model, ob):
+    if os.environ.get('PYVC_NO_BUILD_REPLAY'):
+        return dict(reproduced=False, note='build replay disabled')
+    try:
+        tree, msg = native.shared_build()
+        if tree is None:
+            return dict(reproduced=False, note=msg)
+        r = native.run_venv(CELLKEY, dict(built=tree), timeout=900,
+                            cwd='/tmp')
+    except Exception as e:
+        return dict(reproduced=False, note=str(e)[-300:])
+    if r['bad']:
+        return dict(reproduced=True, how='extensions built from the working '
+                    'tree; CellIndexingNNPS against the definition',
+                    **r['bad'])
+    return dict(reproduced=False)
+
+
+OCTROOT = r'''
+import json, sys
+d = json.load(sys.stdin)
+if d.get('built'): sys.path.insert(0, d['built'])
+import numpy as np
+from pysph.base.utils import get_particle_array
+from pysph.base import nnps
+from cyarray.api import UIntArray
+bad = None
+# a source array with a few large-h particles on one face, queried from a
+# second array lying outside the source's bounding cube
+sx, sy = np.mgrid[0:1.0001:0.1, 0:1.0001:0.1]
+sx, sy = sx.ravel(), sy.ravel()
+sh = np.where(sx > 0.95, 0.3, 0.05)
+dx_, dy_ = np.mgrid[1.15:1.6:0.1, 0:1.0001:0.1]
+dx_, dy_ = dx_.ravel(), dy_.ravel()
+for cls in ('OctreeNNPS', 'CompressedOctreeNNPS'):
+    for cache in (False, True):
+        src = get_particle_array(name='solid', x=sx, y=sy, h=sh)
+        dst = get_particle_array(name='fluid', x=dx_, y=dy_, h=0.05)
+        nn = getattr(nnps, cls)(dim=2, particles=[src, dst], radius_scale=2.0, cache=cache)
+        nb = UIntArray()
+        for q in range(len(dx_)):
+            nn.get_nearest_particles(0, 1, q, nb)
+            d2 = (sx - dx_[q])**2 + (sy - dy_[q])**2
+            want = sorted(np.where((d2 < (2.0 * 0.05)**2) | (d2 < (2.0 * sh)**2))[0].tolist())
+            got = sorted(nb.get_npy_array().tolist())
+            if got != want:
+                bad = dict(algorithm=cls, cache=cache, query=[float(dx_[q]), float(dy_[q])], returned=got[:8], expected=want[:8],
+                           note='source particles with h=0.3 reach the query point; the point is outside the source bounding cube'); break
+        if bad: break
+    if bad: break
+print(json.dumps(dict(bad=bad)))
+'''
+
+
+def replay_octroot(model, ob):
+    if os.environ.get('PYVC_NO_BUILD_REPLAY'):
+        return dict(reproduced=False, note='build replay disabled')
+    try:
+        tree, msg = native.shared_build()
+        if tree is None:
+            return dict(reproduced=False, note=msg)
+        r = native.run_venv(OCTROOT, dict(built=tree), timeout=900,
+                            cwd='/tmp')
+    except Exception as e:
+        return dict(reproduced=False, note=str(e)[-300:])
+    if r['bad']:
+        return dict(reproduced=True, how='extensions built from the working '
+                    'tree; octree classes against the definition',
+                    **r['bad'])
+    return dict(reproduced=False)
+
+
+# ------------------------------------------------------------------ octroot
+OCT_PYX = 'pysph/base/octree.pyx'
+
+
+def task_octroot(ctx, repo):
+    """Octree._calculate_domain (shared by Octree and CompressedOctree): the
+    root cube [xmin, xmin+length]^3 contains every particle and the root's
+    hmax is the LARGEST smoothing length of the array -- the query prunes a
+    node when the point is farther than radius_scale*max(h_query, node.hmax)
+    from it, so a smaller value loses neighbours whose own h reaches the
+    point; the root node is created from exactly these three values."""
+    m = repo.cython_module(OCT_PYX)
+    W_ = m.path
+    cls = 'Octree'
+    fn = m.methods(cls)['_calculate_domain']
+    lo = [z3.Real('min_%s' % a) for a in 'xyz']
+    hi = [z3.Real('max_%s' % a) for a in 'xyz']
+    hmin, hmax = z3.Real('h_minimum'), z3.Real('h_maximum')
+
+    def col(a, b):
+        return SymObject(None, dict(minimum=a, maximum=b), 'col')
+    paw = SymObject(None, dict(
+        x=col(lo[0], hi[0]), y=col(lo[1], hi[1]), z=col(lo[2], hi[2]),
+        h=col(hmin, hmax),
+        get_number_of_particles=Native(lambda e, s_, a, k_, nn: z3.Int('np')),
+        pa=SymObject(None, dict(update_min_max=Native(
+            lambda e, s_, a, k_, nn: s_.trace.append(('update_min_max',)))),
+            'pa')), 'pa_wrapper')
+    eps = z3.Real('eps')
+    obj = SymObject(cls, dict(xmin=[z3.Real('x0'), z3.Real('x1'),
+                                    z3.Real('x2')],
+                              xmax=[z3.Real('X0'), z3.Real('X1'),
+                                    z3.Real('X2')],
+                              hmax=z3.Real('hmax0'), length=z3.Real('len0'),
+                              machine_eps=z3.Real('machine_eps')), 'self')
+    obj.module = m
+    ex = Executor(repo, m, qualname=cls + '._calculate_domain', merge=False,
+                  contracts={cls + '._get_eps': CalleeContract(
+                      lambda e, s_, a, k_, nn: eps)})
+    ex.spec_env['fmax'] = Native(lambda e, s_, a, k_, nn: z3.If(
+        S.to_real(a[0]) >= S.to_real(a[1]), S.to_real(a[0]),
+        S.to_real(a[1])))
+    pre = [lo[i_] <= hi[i_] for i_ in range(3)] + [hmin <= hmax, eps >= 0]
+    obs = []
+    try:
+        outs = ex.exec_function(fn, dict(self=obj, pa_wrapper=paw),
+                                State(pc=list(pre)))
+    except VCError as e:
+        ctx.outside('octroot', str(e))
+        return
+    ctx.function(m, fn, cls + '._calculate_domain', ex.dropped)
+    if not outs:
+        obs.append(Obligation('octroot.nopath', [], z3.BoolVal(False), W_))
+    # an arbitrary particle of the array (contract of update_min_max:
+    # minimum <= value <= maximum for every property)
+    p = [z3.Real('p_%s' % a) for a in 'xyz']
+    hp = z3.Real('p_h')
+    inside = [z3.And(lo[i_] <= p[i_], p[i_] <= hi[i_]) for i_ in range(3)] + \
+        [hmin <= hp, hp <= hmax]
+    for i_, o in enumerate(outs):
+        me = o.state.env['self'].attrs
+        pc = list(o.pc) + inside
+        obs.append(Obligation('octroot.%d.min_max_refreshed_first' % i_, o.pc,
+                              z3.BoolVal(o.state.trace[:1] ==
+                                         [('update_min_max',)]), W_))
+        obs.append(Obligation('octroot.%d.hmax_covers_every_particle' % i_,
+                              pc, S.to_real(me['hmax']) >= hp, W_))
+        L = S.to_real(me['length'])
+        for a_ in range(3):
+            x0 = S.to_real(me['xmin'][a_])
+            obs.append(Obligation('octroot.%d.cube_contains.%s' % (i_,
+                                                                  'xyz'[a_]),
+                                  pc, z3.And(x0 <= p[a_], p[a_] <= x0 + L),
+                                  W_))
+    # the root node is created from these values (both tree classes)
+    roots = []
+    for cname in ('Octree', 'CompressedOctree'):
+        for fname, f in m.methods(cname).items():
+            for node in ast.walk(f):
+                if isinstance(node, ast.Call) and isinstance(
+                        node.func, ast.Attribute) and \
+                        node.func.attr == '_new_node':
+                    kw = {k_.arg: ast.unparse(k_.value)
+                          for k_ in node.keywords}
+                    if kw.get('level') == '0':
+                        roots.append((cname, fname, [ast.unparse(a_) for a_
+                                                     in node.args], kw))
+    ok = len(roots) >= 2 and all(r[2] == ['self.xmin', 'self.length'] and
+                                 r[3].get('hmax') == 'self.hmax'
+                                 for r in roots)
+    obs.append(Obligation('octroot.root_node_uses_domain', [],
+                          z3.BoolVal(bool(ok)), W_,
+                          extra=dict(roots=str(roots)[:300])))
+    ctx.prove('octree.root_covers_every_particle', z3only(obs),
+              use_nf=False, replay=replay_octroot)
 
 
 # ------------------------------------------------------------------ context
